@@ -1,6 +1,6 @@
 (* Run/C13.v — executable comparator for the C13 correspondence. *)
 From Coq Require Import List NArith ZArith Bool.
-From Cedar Require Import Lib.Bytes gen.Consts Model.Msg Model.Decode Model.Sinful.
+From Cedar Require Import Lib.Bytes gen.Consts Model.Msg Model.Decode Model.Sinful Model.Version.
 Import ListNotations.
 Local Open Scope N_scope.
 
@@ -24,6 +24,7 @@ Inductive case :=
 | CBlob (blob : bytes) (accepted : bool) (flags : N) (key eiv div : bytes) (ectr dctr : N) (sd rd peer : bytes)
 | CClaim (s sid info key : bytes)
 | CAttrs (s : bytes) (kvs : list (bytes * bytes))
+| CVersion (s : bytes) (ok : bool) (maj mn sub : Z) (at_least_9_9 : bool)
 | CSinful (s : bytes) (err : bool) (primary host port sock priv_addr priv_net alias : bytes) (noudp : bool)
           (addrs : list bytes) (ccb : list (bytes * bytes * bytes)) (params : list (bytes * bytes)).
 
@@ -209,6 +210,13 @@ Definition check_case (c : case) : bool :=
       match import_session_info_attributes s with
       | Some m => kv_agree m kvs
       | None => false
+      end
+  | CVersion s ok maj mn sub al =>
+      match version_parse s with
+      | None => negb ok
+      | Some (a, b, c') => ok && Z.eqb a maj && Z.eqb b mn && Z.eqb c' sub
+                           && Bool.eqb (at_least (a, b, c') (9, 9, 0)%Z) al
+                           && Bool.eqb (built_since (a, b, c') (9, 9, 0)%Z) al
       end
   | CSinful s err primary host port sock pa pn alias noudp addrs ccb params =>
       match parse_sinful s with
